@@ -44,18 +44,6 @@ theorem C18_globals_init_only :
 /-- no method of a type whose values sit in the shared registries writes through its receiver -/
 theorem C18_descriptors_immutable : descriptorWrites = [] := by decide
 
-/-- the package-level variables are exactly the registries, the two name tables and the two
-random-number bounds (a new package-level variable is a change to be looked at) -/
-theorem C18_globals_inventory :
-    globals.map (fun g => (g.1, g.2.1)) =
-      [("eap", "attrTypeStr"), ("eap", "typeStr"), ("message", "typeStr"),
-       ("security/dh", "dhString"), ("security/dh", "dhTypes"),
-       ("security/encr", "encrKTypes"), ("security/encr", "encrString"), ("security/encr", "encrTypes"),
-       ("security/esn", "esnString"), ("security/esn", "esnTypes"),
-       ("security/integ", "integKTypes"), ("security/integ", "integString"), ("security/integ", "integTypes"),
-       ("security/prf", "prfString"), ("security/prf", "prfTypes"),
-       ("security", "randomNumberMaximum"), ("security", "randomNumberMinimum")] := by decide
-
 open Conc
 
 theorem System.step_other {σ ω : Type} (sys : System σ ω) (i j : Nat) (h : j ≠ i) :
